@@ -167,26 +167,14 @@ pub fn adversarial_naming(spec: &Spec, ch: &mut Chooser) -> AdvNaming {
             nm.variants[i][j] = v;
         }
     }
-    // names of structs that are unit-like or tuple structs (value namespace): a letter-less field local must not equal them
-    let value_structs: Vec<String> = spec
-        .nts
-        .iter()
-        .enumerate()
-        .filter(|(_, n)| !n.is_enum && (n.variants[0].form != Form::Named || !n.variants[0].has_used()))
-        .map(|(i, _)| nm.nts[i].clone())
-        .collect();
     for i in 0..nm.fields.len() {
         for j in 0..nm.fields[i].len() {
             let mut taken = vec![];
             for k in 0..nm.fields[i][j].len() {
                 let (b, hot) = pick_lower(ch);
-                let mut f = uniq(b, &mut taken);
-                // KNOWN FINDING C05/letterless-local-vs-struct: local `<field>_<index>` parsed as a unit/tuple struct pattern
-                if value_structs.contains(&format!("{f}_{k}")) {
-                    excluded.push("letterless-local-vs-struct");
-                    taken.pop();
-                    f = uniq("fld", &mut taken);
-                }
+                let f = uniq(b, &mut taken);
+                // (a letter-less field whose local `<field>_<index>` equals the name of a unit-like or tuple struct was
+                // excluded here while finding `letterless-local-vs-struct` was open; it was repaired in ca28de6)
                 if hot {
                     collisions.push(f.clone());
                 }
